@@ -332,6 +332,68 @@ fn record_ops_more(c: &Circuit, cj: &Value, tr: &mut Tr) {
         }).collect();
         json!({"inplace": circ_json(&x), "to_adjoint": circ_json(&c.to_adjoint()), "gatewise": gw})
     }));
+    // ---- the same gate sequence held in DIFFERENT physical layouts of the VecDeque (a deque that saw push_front is wrapped
+    //      around the end of its buffer, as the circuits the extractor builds are): every in-place operation runs on a
+    //      freshly BUILT circuit (Clone re-lays the buffer contiguously and would hide the layout)
+    put(tr, "layouts", guarded(|| {
+        let gs: Vec<Gate> = c.gates.iter().cloned().collect();
+        let build = |mode: &str| -> Circuit {
+            let mut x = Circuit::new(n);
+            match mode {
+                "push_back" => gs.iter().for_each(|g| x.push_back(g.clone())),
+                "front_rev" => gs.iter().rev().for_each(|g| x.push_front(g.clone())),
+                "middle_out" => {
+                    let mid = gs.len() / 2;
+                    let (mut lo, mut hi) = (mid, mid);
+                    // alternate: one gate before the middle to the front, one after it to the back
+                    while lo > 0 || hi < gs.len() {
+                        if lo > 0 {
+                            lo -= 1;
+                            x.push_front(gs[lo].clone());
+                        }
+                        if hi < gs.len() {
+                            x.push_back(gs[hi].clone());
+                            hi += 1;
+                        }
+                    }
+                }
+                "last_front" => {
+                    gs.iter().skip(1).for_each(|g| x.push(g.clone()));
+                    if let Some(g) = gs.first() {
+                        x.push_front(g.clone());
+                    }
+                }
+                // two gates too many at the front, taken off again through the public deque
+                "pop" => {
+                    x.push_front(Gate::new(GType::HAD, vec![0]));
+                    x.push_front(Gate::new(GType::NOT, vec![0]));
+                    gs.iter().for_each(|g| x.push_back(g.clone()));
+                    x.gates.pop_front();
+                    x.gates.pop_front();
+                }
+                _ => panic!("layout {mode}"),
+            }
+            x
+        };
+        let mut out = vec![];
+        for mode in ["push_back", "front_rev", "middle_out", "last_front", "pop"] {
+            let b = build(mode);
+            let wrapped = !b.gates.as_slices().1.is_empty();
+            let mut r = build(mode);
+            r.reverse();
+            let rev_once = circ_json(&r);
+            r.reverse();
+            let mut a = build(mode);
+            a.adjoint();
+            let mut s1 = build(mode);
+            s1 += &a;
+            let s2 = build(mode) + build(mode).to_adjoint();
+            out.push(json!({"mode": mode, "wrapped": wrapped, "built": circ_json(&b), "eq_base": b == *c, "rev_once": rev_once, "rev_twice": circ_json(&r),
+                            "adj_inplace": circ_json(&a), "to_adjoint": circ_json(&build(mode).to_adjoint()), "plus_adj": circ_json(&s1), "plus_adj2": circ_json(&s2),
+                            "basic": circ_json(&build(mode).to_basic_gates()), "stats_same": build(mode).stats() == c.stats()}));
+        }
+        json!({"layouts": out, "basic_base": circ_json(&c.to_basic_gates())})
+    }));
     // ---- RowOps for Circuit: a circuit of CNOT / SWAP gates as the proxy of an F2 matrix.  `mat` is what the SAME call does
     //      to the identity BitMatrix (bitgauss defines the operation); Trace_Circ checks that the circuit's linear map on
     //      X-basis states (where `c|b> = |m b>` of the impl's documentation holds) is multiplied by exactly that matrix.
